@@ -45,6 +45,11 @@ private:
 	void FillCurrentTarget(Value value);
 };
 
+/* Documents nested deeper than this are rejected by JsonDecode(): the value built from them is destroyed (and
+ * walked by every consumer) recursively, which overflows the 256 KiB coroutine stacks of the network readers
+ * after a few thousand levels. */
+static const std::size_t l_MaxJsonNestingDepth = 128;
+
 const char l_Null[] = "null";
 const char l_False[] = "false";
 const char l_True[] = "true";
@@ -276,6 +281,9 @@ bool JsonSax::binary(JsonSax::binary_t& val)
 inline
 bool JsonSax::start_object(std::size_t)
 {
+	if (m_CurrentSubtree.size() >= l_MaxJsonNestingDepth)
+		throw std::invalid_argument("JSON document is nested too deeply.");
+
 	auto object (new Dictionary());
 
 	FillCurrentTarget(object);
@@ -305,6 +313,9 @@ bool JsonSax::end_object()
 inline
 bool JsonSax::start_array(std::size_t)
 {
+	if (m_CurrentSubtree.size() >= l_MaxJsonNestingDepth)
+		throw std::invalid_argument("JSON document is nested too deeply.");
+
 	auto array (new Array());
 
 	FillCurrentTarget(array);
